@@ -107,6 +107,81 @@ pub fn oracle<E: Engine>(_ctx: &RunCtx, spec: &RecSpec, log: &mut CaseLog) -> Re
     Ok(())
 }
 
+/// long batches of valid members drawn from a small pool: result i must be the mask of member i also beyond 256 members
+#[derive(Clone, Debug, Serialize, Deserialize)]
+pub struct LongRecSpec {
+    pub bits_idx: u8,
+    pub ext: usize,
+    pub pool: Vec<PoolMember>,
+    pub k: u16,
+    pub order: u64,
+    pub recover_only: bool,
+}
+
+pub fn long_oracle<E: Engine>(_ctx: &RunCtx, spec: &LongRecSpec, log: &mut CaseLog) -> Result<(), String> {
+    use rand_core::RngCore;
+    E::reset_case();
+    let bits = BITS[spec.bits_idx as usize % 4];
+    let pool: Vec<Member<E>> = spec
+        .pool
+        .iter()
+        .map(|pm| build_member::<E>(bits, spec.ext, pm, bits.max(8)))
+        .collect::<Result<_, _>>()?;
+    let k = spec.k as usize;
+    let mut rng = crate::gen::chacha(spec.order);
+    let seq: Vec<&Member<E>> = (0..k).map(|_| &pool[(rng.next_u32() as usize) % pool.len()]).collect();
+    let action = if spec.recover_only { VerifyAction::RecoverOnly } else { VerifyAction::RecoverAndVerify };
+    let masks = verify_members::<E>(&seq, action)?.map_err(|e| format!("batch of {} valid members refused in {}: {}", k, action_name(action), e))?;
+    if masks.len() != k {
+        return Err(format!("{} results for {} members", masks.len(), k));
+    }
+    for (i, (got, m)) in masks.iter().zip(seq.iter()).enumerate() {
+        if *got != m.mask {
+            return Err(format!(
+                "result {} of {} (mode {}) is not the mask of member {} (expected present: {}, got present: {})",
+                i,
+                k,
+                action_name(action),
+                i,
+                m.mask.is_some(),
+                got.is_some()
+            ));
+        }
+    }
+    log.label(format!("engine={}", E::NAME));
+    log.label(format!("recover-long:k={}", if k > 512 { ">512" } else if k > 256 { "257-512" } else { "<=256" }));
+    log.nontrivial(&(k, bits, spec.ext, spec.order, spec.recover_only));
+    log.sample(json!({"engine": E::NAME, "kind": "long recovering batch", "k": k, "bits": bits, "ext": spec.ext, "mode": action_name(action)}));
+    Ok(())
+}
+
+fn long_sub<E: Engine>(cases: (usize, usize)) -> Sub {
+    sub(
+        &format!("{}/long-batches", E::NAME),
+        no_fixed,
+        cases,
+        |_: &RunCtx, _: Option<&()>| {
+            (
+                0u8..4,
+                1usize..=6,
+                prop::collection::vec(member_strategy(), 2..=5),
+                prop_oneof![1 => 13u16..=255, 3 => 256u16..=300, 2 => 500u16..=530, 1 => 301u16..=700],
+                any::<u64>(),
+                any::<bool>(),
+            )
+                .prop_map(|(bits_idx, ext, pool, k, order, recover_only)| LongRecSpec {
+                    bits_idx,
+                    ext,
+                    pool,
+                    k,
+                    order,
+                    recover_only,
+                })
+        },
+        long_oracle::<E>,
+    )
+}
+
 fn rec_sub<E: Engine>(cases: (usize, usize)) -> Sub {
     sub(
         &format!("{}/mask-per-position", E::NAME),
@@ -132,10 +207,15 @@ pub fn def() -> PropertyDef {
                (uniform, 0, 1, -1), without a seed, and aggregated members (m = 2, 4), capacities m..4m, per-component blinding classes \
                {uniform, 0, 1, -1} (components distinct), value / promise / context / RNG-model classes, in generated order, verified in \
                RecoverAndVerify, RecoverOnly or VerifyOnly. Oracle: result i == Some(blinding vector of commitment i, all components in order) for \
-               seeded non-aggregated members, None for all others and for every member in VerifyOnly. Non-trivial = degree >= 2 or a batch with >= 2 kinds of member; distinct by (bits, degree, kinds, mode, batch size, case)."
+               seeded non-aggregated members, None for all others and for every member in VerifyOnly. Second generator: batches of 13-700 valid members (sizes just above 256 and 512 stratified) drawn from a pool of 2-5 members in both recovering modes: result i is the mask of member i. Non-trivial = degree >= 2 or a batch with >= 2 kinds of member; distinct by (bits, degree, kinds, mode, batch size, case)."
             .into(),
         assumptions: vec![],
         exhaustive: false,
-        subs: vec![rec_sub::<F>((12_000, 150_000)), rec_sub::<R>((1000, 8000))],
+        subs: vec![
+            rec_sub::<F>((12_000, 150_000)),
+            rec_sub::<R>((1000, 8000)),
+            long_sub::<F>((200, 3000)),
+            long_sub::<R>((24, 300)),
+        ],
     }
 }
